@@ -33,7 +33,7 @@ def run(tier):
     # JSON validity with an independent parser; fields carry the printed numbers
     json_bad = 0
     for e in cev:
-        if e['form'] == 'JSON':
+        if e['form'] in ('JSON', 'JSON_unit') and e.get('raw'):
             try:
                 json.loads(e['raw'])
             except ValueError:
